@@ -246,7 +246,7 @@ func replaySpecial(path string) (int, bool) {
 	case len(f.Replay.StoreHistory) > 0:
 		// the universe that has every operation of the history
 		var u *sUniverse
-		for _, cand := range []*sUniverse{mkUniverse(true), mkBoundaryUniverse(), mkTypedUniverse()} {
+		for _, cand := range []*sUniverse{mkUniverse(true), mkBoundaryUniverse(), mkTypedUniverse(), mkNestedUniverse()} {
 			all := true
 			for _, l := range f.Replay.StoreHistory {
 				found := false
